@@ -138,6 +138,10 @@ func init() {
 var c13Worker *Worker
 
 func c13Eval(c *Ctx, cs Case) {
+	if cs.I("sigs_n") > 0 { // size scaling: a large image with many signatures, built from its description
+		c13ScaleEval(c, cs)
+		return
+	}
 	ep := cs.S("ep")
 	b := unhx(cs.S("b"))
 	if n := int(cs.I("overlap_nsec")); n > 0 { // generated on the fly: keeps replay and corpus files small
@@ -537,6 +541,152 @@ func overlapPE(nsec, size int) []byte {
 	return img
 }
 
+// c13ManySigs builds a large signed image from its description (the case holds the description, not the
+// megabytes): the unsigned image `base`, `trailing` bytes of data behind its last section (the file is brought to
+// a multiple of 8 first), and a certificate table - the tail of the file, directory entry set to match - that
+// holds the signature blob `sig` n times, each in a WIN_CERTIFICATE padded to 8 bytes: what n calls of
+// AppendSignature(sig) produce.
+func c13ManySigs(base []byte, trailing, n int, sig []byte) []byte {
+	img := c13Padded(base, trailing)
+	e := winCert(sig)
+	table := make([]byte, 0, n*len(e))
+	for i := 0; i < n; i++ {
+		table = append(table, e...)
+	}
+	return withTable(img, table)
+}
+
+// c13Padded: base brought to a multiple of 8 and followed by `trailing` bytes (rounded down to a multiple of 8)
+// of a fixed pattern that is neither constant nor periodic in a power of two.
+func c13Padded(base []byte, trailing int) []byte {
+	img := make([]byte, 0, len(base)+8+trailing)
+	img = append(img, base...)
+	for len(img)%8 != 0 {
+		img = append(img, 0)
+	}
+	var blk [8 * 509]byte
+	for i := range blk {
+		blk[i] = byte(i*131 + i>>8 + 7)
+	}
+	for trailing >= 8 {
+		k := min(trailing, len(blk))
+		k -= k % 8
+		img = append(img, blk[:k]...)
+		trailing -= k
+	}
+	return img
+}
+
+// c13ScaleEval runs the image entry points on a file of several megabytes that carries the same signature n
+// times, and checks that time and memory stay proportional to the size of the file: against the absolute budgets
+// of every other input (1 µs per byte + 0.5 s; 64 bytes per byte), and - so that the verdict does not depend on
+// how fast the machine is - against the time the file's two PARTS take on their own: the same image with the
+// signature once, and the same n entries behind the image without the trailing data (signed by the same key:
+// "sig0"). Work proportional to the input is additive over such a split (parse and check n entries + read and
+// hash the image), work that is not - the image hashed once per entry - is the product. The whole may take at
+// most 8 x the sum of the parts + 0.1 s. Each measurement is the best of up to three runs.
+func c13ScaleEval(c *Ctx, cs Case) {
+	ep := cs.S("ep")
+	base, sig, sig0 := unhx(cs.S("b")), unhx(cs.S("sig")), unhx(cs.S("sig0"))
+	n, trailing := int(cs.I("sigs_n")), int(cs.I("sigs_trailing"))
+	if len(base) < 0x100 || len(sig) == 0 || n <= 0 {
+		return
+	}
+	if c13Worker == nil {
+		c13Worker = c.NewWorker(3<<20, "GOMEMLIMIT=2GiB")
+		c13Worker.MaxTimeouts = 3
+	}
+	whole := c13ManySigs(base, trailing, n, sig)
+	limitUs := int64(500000 + len(whole)) // 1 µs per byte + 0.5 s
+	once := func(in []byte, tmoUs int64) (wRes, int64) {
+		// the deadline also covers handing the file over (hex in a JSON line), which the measured time does not
+		res := c13Worker.Do(ep, map[string]string{"b": hx(in), "cert": cs.S("cert")}, time.Duration(tmoUs)*time.Microsecond+5*time.Second)
+		us := res.Us
+		if us == 0 {
+			us = res.Ms * 1000
+		}
+		return res, us
+	}
+	desc := fmt.Sprintf("a %d-byte file (image of %d bytes + %d bytes of trailing data, certificate table of %d entries of %d bytes)", len(whole), len(base), trailing, n, len(winCert(sig)))
+	var res wRes
+	us, partsUs := int64(-1), int64(-1)
+	fail := func(what, matcher string) {
+		c.Fail(Failure{Kind: "property", Matcher: matcher, What: ep + " (" + cs.S("class") + "): " + what, Case: cs, Go: fmt.Sprintf("%s alloc=%d us=%d parts_us=%d %s %s", res.Class, res.Alloc, us, partsUs, res.Panic, clip(res.Out))})
+	}
+	counted := false
+	split := cs.I("split") > 0 && len(sig0) > 0
+	var imagePart, tablePart []byte
+	if split {
+		imagePart = c13ManySigs(base, trailing, 1, sig)
+		tablePart = c13ManySigs(base, 0, n, sig0)
+	}
+	var verdict func()
+	for try := 0; try < 3; try++ {
+		// a file that got no answer after twice its limit is cut off: it has failed the limit whatever comes later
+		r, u := once(whole, 2*limitUs)
+		if !counted {
+			counted = true
+			if r.Class == "not-run" {
+				c.Class("untrusted/" + ep + "/not-run-after-timeouts")
+				return
+			}
+			c.Count(cs.Key(), true, "untrusted/"+ep+"/"+cs.S("class")+"/"+r.Class)
+			c.Sample(cs)
+		}
+		if r.Class != "ok" && r.Class != "err" {
+			res, us = r, u
+			switch r.Class {
+			case "timeout":
+				fail(fmt.Sprintf("did not finish: no answer %d ms after %s was handed over (limit %d ms: time must be proportional to the input size), the worker was killed", r.Ms, desc, limitUs/1000), "c13.time")
+			case "panic":
+				fail("panicked on "+desc, "c13.panic")
+			case "exit":
+				fail("terminated the process on "+desc, "c13.exit")
+			case "oom":
+				fail("ran out of memory on "+desc, "c13.alloc")
+			}
+			return
+		}
+		if us < 0 || u < us {
+			res, us = r, u
+		}
+		verdict = nil
+		if us > limitUs {
+			verdict = func() {
+				fail(fmt.Sprintf("took %d µs for %s (limit %d µs: time must be proportional to the input size)", us, desc, limitUs), "c13.time")
+			}
+		}
+		if split && verdict == nil {
+			a, au := once(imagePart, 2*limitUs)
+			b, bu := once(tablePart, 2*limitUs)
+			if (a.Class == "ok" || a.Class == "err") && (b.Class == "ok" || b.Class == "err") {
+				if partsUs < 0 || au+bu < partsUs {
+					partsUs = au + bu
+				}
+				if us > 8*partsUs+100000 {
+					verdict = func() {
+						fail(fmt.Sprintf("took %d µs for %s, but %d µs for its two parts on their own (the image with one entry: %d bytes; the %d entries behind the image without the trailing data: %d bytes): more than 8 x + 0.1 s, the time depends on more than the input size", us, desc, partsUs, len(imagePart), n, len(tablePart)), "c13.time")
+					}
+				}
+			}
+		}
+		if verdict == nil {
+			break
+		}
+	}
+	c.Note(fmt.Sprintf("scale/%s/%s/%d+%d/%d", ep, cs.S("class"), len(base), trailing, n), fmt.Sprintf("%d bytes: %d µs (limit %d µs); parts on their own: %d µs; alloc %d", len(whole), us, limitUs, partsUs, res.Alloc))
+	if verdict != nil {
+		verdict()
+	}
+	if res.Alloc > 64*uint64(len(whole))+(14<<20) {
+		fail(fmt.Sprintf("allocated %d bytes for %s", res.Alloc, desc), "c13.alloc")
+	}
+	if want := cs.S("want"); want != "" && !strings.Contains(res.Out, want) {
+		// the generator's own files are well-formed and signed: another answer means the timing compares nothing
+		c.Fail(Failure{Kind: "property", What: ep + " (" + cs.S("class") + "): " + desc + " signed by the harness was not answered with " + want, Case: cs, Go: res.Class + " " + clip(res.Out)})
+	}
+}
+
 func c13Gen(c *Ctx) {
 	defer func() {
 		if c13Worker != nil {
@@ -705,12 +855,58 @@ func c13Gen(c *Ctx) {
 		}
 	}
 	emit("p7.all", "empty", nil)
+	// size scaling of the image entry points: files of a few MB up to ~24 MB - a generated image and a repository
+	// image followed by trailing data, signed once by the harness key, whose certificate table holds that signature
+	// n times - parsed, listed, hashed, re-serialised and verified with the signer's certificate (the first entry
+	// decides) and with a stranger's (every entry answers "not this certificate", so all n are looked at)
+	{
+		stranger := makeRSACert(poolKey(c, 2048, 1), certShapes(c)[1])
+		type point struct {
+			base        []byte
+			trailing, n int
+		}
+		gs := genPeSpec(c, false)
+		gs.CertBodies = nil
+		gen := buildPE(gs).img
+		repo := gen
+		if b, err := os.ReadFile(filepath.Join(c.RepoDir, "authenticode/testdata/test.pecoff")); err == nil && len(b) >= 0x100 {
+			repo = b
+		}
+		pts := []point{{gen, 9 << 19, 1000}, {repo, 16 << 20, 5000}}
+		if c.Thorough {
+			pts = append(pts, point{gen, 1 << 20, 250}, point{repo, 2 << 20, 500}, point{repo, 8 << 20, 2000}, point{gen, 11 << 20, 8000}, point{gen, 20 << 20, 2500})
+		}
+		t0 := time.Now()
+		defer func() { c.Note("scale/wall_s", time.Since(t0).Seconds()) }()
+		for i, pt := range pts {
+			if !c.Mine(i) || c.NFailures() >= 40 || len(pt.base) < 0x100 {
+				continue
+			}
+			var sig, sig0 []byte
+			if !c13InProcess(c, "signing a valid image with trailing data", func() {
+				_, sig, _ = signImage(c, c13Padded(pt.base, pt.trailing), 0)
+				_, sig0, _ = signImage(c, c13Padded(pt.base, 0), 0)
+			}) {
+				return
+			}
+			if len(sig) == 0 || len(sig0) == 0 {
+				c.Class("untrusted/pe.all/many-signatures/not-signed")
+				continue
+			}
+			cs := func(class string, crt *x509.Certificate, want string, split int) Case {
+				return Case{"op": "untrusted", "ep": "pe.all", "class": "many-signatures/" + class, "cert": hx(crt.Raw), "b": hx(pt.base), "sig": hx(sig), "sig0": hx(sig0),
+					"sigs_n": int64(pt.n), "sigs_trailing": int64(pt.trailing), "want": want, "split": int64(split)}
+			}
+			c13Eval(c, cs("other-cert", stranger, "verify-false-err", 1))
+			c13Eval(c, cs("signer-cert", cert, "verify-true-ok", 0))
+		}
+	}
 }
 
 func init() {
 	register("C13", &PropDef{
-		Rule:   "image entry points (Parse, Signatures, Hash, Bytes, Verify) and signature entry points (ParsePKCS7, ParseAuthenticode, both Verifys) in a sandboxed worker process (address-space limit, per-input timeout, TotalAlloc delta). Images: repository binaries, generated signed images and a generated image with two section headers that declare raw data without a file pointer (PointerToRawData = 0), under sweeps of e_lfanew, SizeOfOptionalHeader, NumberOfSections, NumberOfRvaAndSizes, SizeOfHeaders, section offsets/sizes (incl. overlap, 2^31, 2^32-1), certificate directory address/size beyond the file, WIN_CERTIFICATE dwLength (<8, huge), the file cut by 1..17 bytes (and down to 1, 8, 9 bytes of table) with the directory size lowered to match (a table that ends inside the padding of its last entry or inside the entry), every ~2% truncation point, random header bytes; the section sweeps cover the first three and the last section header (raw data at / beyond the end of the file included). Signatures inside the certificate table: two signed generated images with their own signature replaced by each derived blob - the targeted forgeries (every object identifier outside the certificates, among them the digest algorithm of the SpcIndirectDataContent DigestInfo, replaced by each of seven siblings (SHA-1/384/512, ...) alone and with a content change; dropped signed attributes; several signer entries; blobs nested inside blobs), the optional fields below, and a fifth of the generic mutations - parsed, listed, hashed (SHA-256 and SHA-1/384/512), re-serialised and verified through PECOFFBinary.Verify with the certificate of the signer. WIN_CERTIFICATEs (certificate-table entries of the signed images, signature blobs in a fresh wrapper, an empty and a GUID-typed one) are read by ReadWinCertificate through 8 kinds of io.Reader (bytes.Reader, bytes.Buffer, bufio.Reader, io.SectionReader, an open os.File, io.Pipe, a reader with no method but Read, a one-byte reader) with dwLength in {0,1,7,8,9,n-1,n,n+1,n+8,2n,2^16,2^20,2^24,2^28,2^31-1,2^31,2^32-8,2^32-1} over the full body and over 0..16 bytes of body, truncations and wrong revisions; the same time/memory oracle, and the decoded fields are compared with the Lean model of the reader for every kind. Signatures: library/fixture/CMS-shaped blobs under bit flips, per-leaf flips, structural DER edits, targeted forgeries (incl. dropped signed attributes, two-signer-entry combinations, and blobs nested inside blobs: unsigned attributes, certificates, CRLs, content, signer entries, trailing fields), oversized and truncated lengths; the OPTIONAL fields of the syntax that the library never writes (unauthenticatedAttributes [1] at the end of every signer entry, crls [1]) holding nothing / a well-formed attribute / ill-shaped readable elements / 200 empty attributes / bytes that are no DER element at all (truncated element, lone zero byte, lone tag, length beyond the input, indefinite and non-minimal length, high tag number, readable then truncated; alone and behind a well-formed attribute) - quick: a rotating quarter of these contents per blob, all of them for every ninth blob; and the same unreadable bytes behind the last child of every constructed element outside the certificates (every ninth blob; thorough: every blob, inside the certificates too); every signer entry's version field set to each CMSVersion value 0..5 crossed with each form of its signer identifier (issuerAndSerialNumber as it is, the [0] subjectKeyIdentifier alternative of RFC 5652 5.3 holding the key identifier of the verifying certificate or nothing, the same tag in constructed form, no identifier at all) - for the signature blobs and, inside the certificate table of the signed images, through PECOFFBinary.Verify; each verified with the certificate its signer entry names and, for a quarter, with a stranger's. Non-trivial: non-empty input; distinct = distinct inputs.",
-		Assume: []string{"allocation budget 64 bytes per input byte + 4 MiB; time limit 0.5 s + 1 µs per input byte; an input that got no answer after ten times its limit (at least 5 s) is reported as hanging and the worker is killed; after 3 such inputs the rest of the run is not executed (class not-run-after-timeouts)", "wall-clock time and resident memory are runtime facts measured on the sampled inputs only"},
+		Rule:   "image entry points (Parse, Signatures, Hash, Bytes, Verify) and signature entry points (ParsePKCS7, ParseAuthenticode, both Verifys) in a sandboxed worker process (address-space limit, per-input timeout, TotalAlloc delta). Images: repository binaries, generated signed images and a generated image with two section headers that declare raw data without a file pointer (PointerToRawData = 0), under sweeps of e_lfanew, SizeOfOptionalHeader, NumberOfSections, NumberOfRvaAndSizes, SizeOfHeaders, section offsets/sizes (incl. overlap, 2^31, 2^32-1), certificate directory address/size beyond the file, WIN_CERTIFICATE dwLength (<8, huge), the file cut by 1..17 bytes (and down to 1, 8, 9 bytes of table) with the directory size lowered to match (a table that ends inside the padding of its last entry or inside the entry), every ~2% truncation point, random header bytes; the section sweeps cover the first three and the last section header (raw data at / beyond the end of the file included). Signatures inside the certificate table: two signed generated images with their own signature replaced by each derived blob - the targeted forgeries (every object identifier outside the certificates, among them the digest algorithm of the SpcIndirectDataContent DigestInfo, replaced by each of seven siblings (SHA-1/384/512, ...) alone and with a content change; dropped signed attributes; several signer entries; blobs nested inside blobs), the optional fields below, and a fifth of the generic mutations - parsed, listed, hashed (SHA-256 and SHA-1/384/512), re-serialised and verified through PECOFFBinary.Verify with the certificate of the signer. WIN_CERTIFICATEs (certificate-table entries of the signed images, signature blobs in a fresh wrapper, an empty and a GUID-typed one) are read by ReadWinCertificate through 8 kinds of io.Reader (bytes.Reader, bytes.Buffer, bufio.Reader, io.SectionReader, an open os.File, io.Pipe, a reader with no method but Read, a one-byte reader) with dwLength in {0,1,7,8,9,n-1,n,n+1,n+8,2n,2^16,2^20,2^24,2^28,2^31-1,2^31,2^32-8,2^32-1} over the full body and over 0..16 bytes of body, truncations and wrong revisions; the same time/memory oracle, and the decoded fields are compared with the Lean model of the reader for every kind. Signatures: library/fixture/CMS-shaped blobs under bit flips, per-leaf flips, structural DER edits, targeted forgeries (incl. dropped signed attributes, two-signer-entry combinations, and blobs nested inside blobs: unsigned attributes, certificates, CRLs, content, signer entries, trailing fields), oversized and truncated lengths; the OPTIONAL fields of the syntax that the library never writes (unauthenticatedAttributes [1] at the end of every signer entry, crls [1]) holding nothing / a well-formed attribute / ill-shaped readable elements / 200 empty attributes / bytes that are no DER element at all (truncated element, lone zero byte, lone tag, length beyond the input, indefinite and non-minimal length, high tag number, readable then truncated; alone and behind a well-formed attribute) - quick: a rotating quarter of these contents per blob, all of them for every ninth blob; and the same unreadable bytes behind the last child of every constructed element outside the certificates (every ninth blob; thorough: every blob, inside the certificates too); every signer entry's version field set to each CMSVersion value 0..5 crossed with each form of its signer identifier (issuerAndSerialNumber as it is, the [0] subjectKeyIdentifier alternative of RFC 5652 5.3 holding the key identifier of the verifying certificate or nothing, the same tag in constructed form, no identifier at all) - for the signature blobs and, inside the certificate table of the signed images, through PECOFFBinary.Verify; each verified with the certificate its signer entry names and, for a quarter, with a stranger's. Size scaling of the image entry points (class many-signatures, built from a description: the case holds the small image, the signature and two numbers): a generated image followed by 4.5 MiB of trailing data whose certificate table holds the harness key's signature 1000 times (6 MB) and the repository image test.pecoff followed by 16 MiB with 5000 entries (23 MB) [thorough: also 1 MiB / 250, 2 MiB / 500, 8 MiB / 2000, 11 MiB / 8000, 20 MiB / 2500 entries], each entry padded to 8, directory size to match, the table the tail of the file - parsed, listed, hashed, re-serialised and verified with the signer's certificate (the first entry decides; the answer must be true) and with a stranger's (every entry answers \"not this certificate\", all n are looked at; the answer must be \"no valid signature\"): the absolute limits, cut off after twice the time limit (reported as \"did not finish\", matcher c13.time), and for the stranger's certificate a relative one that does not depend on the machine: the file may take at most 8 x the time of its two parts on their own (the same image with ONE entry + the same n entries behind the image without the trailing data, signed by the same key) + 0.1 s, best of 3 runs - work proportional to the input is additive over that split, the image hashed once per entry (F38) is their product. Non-trivial: non-empty input; distinct = distinct inputs.",
+		Assume: []string{"allocation budget 64 bytes per input byte + 4 MiB; time limit 0.5 s + 1 µs per input byte; an input that got no answer after ten times its limit (at least 5 s) is reported as hanging and the worker is killed; after 3 such inputs the rest of the run is not executed (class not-run-after-timeouts)", "the large files with many signatures: the same limits, no answer after twice the time limit (+ 5 s for handing the file over) = did not finish; whole file <= 8 x (image with one entry + all entries behind the short image) + 0.1 s, best of 3", "wall-clock time and resident memory are runtime facts measured on the sampled inputs only"},
 		Eval:   c13Eval, Gen: c13Gen,
 	})
 }
